@@ -35,11 +35,16 @@ fvars == <<kcfg, kv, kat, kdem>>
 
 Ent == Catalog[kcfg.e]
 Sgs == Ent.sgs
-TheU == IF kcfg.u = 0 THEN Ent.broken ELSE Ent.universes[kcfg.u]
+TheU == CASE kcfg.u = 0 -> Ent.broken [] kcfg.u = 99 -> Ent.broken2 [] OTHER -> Ent.universes[kcfg.u]
 TheOp == [doc |-> kcfg.doc, vars |-> kcfg.vars]     \* pinned (kcfg.i > 0) or read from the file of generated cases
 Sup == Supers[kcfg.e]
 SubT(sg) == Subs[kcfg.e][sg]
 
+\* what subgraph sg answers for a field: the universe's value unless the universe records a deviation for that owner
+SgData(sg, o, fn) ==
+  IF \E i \in DOMAIN TheU.over : TheU.over[i].sg = Sgs[sg].name /\ TheU.over[i].o = o /\ TheU.over[i].f = fn
+  THEN TheU.over[CHOOSE i \in DOMAIN TheU.over : TheU.over[i].sg = Sgs[sg].name /\ TheU.over[i].o = o /\ TheU.over[i].f = fn].v
+  ELSE FieldData(Sub(SubT(sg), TheU), o, fn)
 MonoResult == Exec(Mono(Sup, TheU), TheOp.doc, TheOp.vars)
 FedResultOf(v) == Exec(Fed(Sup, TheU, v), TheOp.doc, TheOp.vars)
 FedResult == FedResultOf(kv)
@@ -105,7 +110,7 @@ FetchField(s, p) ==
          tn == TheU.objs[o2].type
          M == Sub(SubT(sg), TheU)
          fd == FieldOf(SubT(sg), tn, fn)
-         dv == FieldData(M, o2, fn)
+         dv == SgData(sg, o2, fn)
          v == IF fd.req # <<>> THEN ReqValue(fn, ProjVal(kv, o, fd.req))
               ELSE IF dv.t = "fn" THEN ArgOfDig(dv, s[3]) ELSE dv
          cprov == IF fd.prov # <<>> THEN fd.prov ELSE ProvSub(p[4], fn)
@@ -121,7 +126,8 @@ Done == Terminated /\ UNCHANGED fvars
 Start(c) ==
   /\ kcfg = c
   /\ kv = <<>>
-  /\ kdem = Markers(Exec(Fed(Supers[c.e], IF c.u = 0 THEN Catalog[c.e].broken ELSE Catalog[c.e].universes[c.u], <<>>),
+  /\ kdem = Markers(Exec(Fed(Supers[c.e], CASE c.u = 0 -> Catalog[c.e].broken [] c.u = 99 -> Catalog[c.e].broken2
+                                                  [] OTHER -> Catalog[c.e].universes[c.u], <<>>),
                         c.doc, c.vars).data)
   /\ kat = {<<"Q", sg, "Q", <<>>>> : sg \in {j \in DOMAIN Catalog[c.e].sgs : HasName(Catalog[c.e].sgs[j].types, "Query")}}
 \* (mutations have effects, which this model does not describe: queries only)
@@ -130,6 +136,8 @@ FedInit ==
      Start([e |-> e, u |-> u, i |-> i, doc |-> Catalog[e].ops[i].doc, vars |-> Catalog[e].ops[i].vars])
 \* negative control: a universe whose keys are NOT unique (two users share an id)
 NegInit == \E i \in DOMAIN Catalog[1].ops : Start([e |-> 1, u |-> 0, i |-> i, doc |-> Catalog[1].ops[i].doc, vars |-> Catalog[1].ops[i].vars])
+\* second negative control: two owners of a shared field disagree (OwnersAgree is false)
+Neg2Init == \E i \in DOMAIN Catalog[4].ops : Start([e |-> 4, u |-> 99, i |-> i, doc |-> Catalog[4].ops[i].doc, vars |-> Catalog[4].ops[i].vars])
 \* the same model on operations produced by Gen_C01 (NDJSON lines [e, doc, vars], file name in C01_OPS)
 GenOps == ndJsonDeserialize(IOEnv.C01_OPS)
 FileInit ==
@@ -144,6 +152,19 @@ FedNext ==
 FedSpec == FedInit /\ [][FedNext]_fvars
 NegSpec == NegInit /\ [][FedNext]_fvars
 FileSpec == FileInit /\ [][FedNext]_fvars
+Neg2Spec == Neg2Init /\ [][FedNext]_fvars
+\* EVERY order of the independent fetches (no partial-order reduction) on one small entry: the refinement and
+\* deadlock freedom do not depend on the fixed order used above
+FreeNext ==
+  \/ \E s \in Fetchable : \E p \in kat : FetchField(s, p)
+  \/ Done
+FreeInit == \E e \in {1, 4} : \E u \in DOMAIN Catalog[e].universes : \E i \in DOMAIN Catalog[e].ops :
+              Start([e |-> e, u |-> u, i |-> i, doc |-> Catalog[e].ops[i].doc, vars |-> Catalog[e].ops[i].vars])
+FreeSpec == FreeInit /\ [][FreeNext]_fvars
+\* (quick tier: two operations of the first entry)
+FreeSmallInit == \E u \in DOMAIN Catalog[1].universes : \E i \in {1, 3} :
+                   Start([e |-> 1, u |-> u, i |-> i, doc |-> Catalog[1].ops[i].doc, vars |-> Catalog[1].ops[i].vars])
+FreeSmallSpec == FreeSmallInit /\ [][FreeNext]_fvars
 
 FedRefinesMonolith ==
   Terminated => /\ VEq(FedResult.data, MonoResult.data)
